@@ -6,6 +6,7 @@ import (
 	"bytes"
 	"fmt"
 	"io"
+	"sync"
 
 	"github.com/gobwas/ws"
 	"github.com/gobwas/ws/wsutil"
@@ -58,6 +59,8 @@ var Rsv1First = wsutil.SendExtensionFunc(func(h ws.Header) (ws.Header, error) {
 	return h, nil
 })
 
+var buildMu sync.RWMutex
+
 // Build constructs the writer; ok=false when the constructor panics (buffer too small:
 // documented behaviour, the configuration is skipped).
 func Build(c Cfg, dst io.Writer) (w *wsutil.Writer, ok bool) {
@@ -67,6 +70,19 @@ func Build(c Cfg, dst io.Writer) (w *wsutil.Writer, ok bool) {
 		}
 	}()
 	st := c.State()
+	if c.Ctor == "NewWriter/DefaultWriteBuffer" {
+		// the package-level default is the application's to set before it makes writers
+		buildMu.Lock()
+		defer buildMu.Unlock()
+		saved := wsutil.DefaultWriteBuffer
+		wsutil.DefaultWriteBuffer = c.N
+		defer func() { wsutil.DefaultWriteBuffer = saved }()
+		w = wsutil.NewWriter(dst, st, c.OpCode)
+		Configure(w, c)
+		return w, true
+	}
+	buildMu.RLock()
+	defer buildMu.RUnlock()
 	switch c.Ctor {
 	case "NewWriter":
 		w = wsutil.NewWriter(dst, st, c.OpCode)
@@ -203,7 +219,7 @@ type CallObs struct {
 	Buffered  int
 	Available int
 	Size      int
-	DestCalls int // destination Write calls made during this API call
+	DestCalls int    // destination Write calls made during this API call
 	Frames    string // frames emitted during this call, normalised (mask removed)
 }
 
@@ -214,23 +230,23 @@ type Session struct {
 	Dst *env.Dst
 
 	// model
-	Accepted   []byte // every byte the writer reported as accepted, in order
-	MsgStart   int    // index into Accepted where the current message starts
-	Dirty      bool   // a write-type call happened since the last final flush
-	PlainOnly  bool   // only Write/ReadFrom/Grow since the last final flush
-	WriteOnly  bool   // only Write/Grow since the last final flush
-	Failed     bool   // an error was reported by the writer (C16)
+	Accepted  []byte // every byte the writer reported as accepted, in order
+	MsgStart  int    // index into Accepted where the current message starts
+	Dirty     bool   // a write-type call happened since the last final flush
+	PlainOnly bool   // only Write/ReadFrom/Grow since the last final flush
+	WriteOnly bool   // only Write/Grow since the last final flush
+	Failed    bool   // an error was reported by the writer (C16)
 	// Dead: a Reset refused the buffer for the other side (documented panic); later calls are skipped
 	Dead bool
 	// DirtyUnknown: a call happened that may or may not count as "something written"
 	DirtyUnknown bool
 
-	parsedBytes int // dest bytes already parsed
-	wirePayload int // payload bytes seen on the wire
-	frameInMsg  int // frames seen in the current message
-	msgsOnWire  int
-	Obs         []CallObs
-	pos         int // next absolute payload position to generate
+	parsedBytes            int // dest bytes already parsed
+	wirePayload            int // payload bytes seen on the wire
+	frameInMsg             int // frames seen in the current message
+	msgsOnWire             int
+	Obs                    []CallObs
+	pos                    int // next absolute payload position to generate
 	framesOfMsgBeforeFlush int
 	minSize                int
 }
